@@ -183,6 +183,22 @@ def _check_fs(case):
         if any(has) and not all(has):
             mixed = True
     same_array('from_sparse', out, exp, key='from_sparse')
+    # the arguments are inputs only: a second conversion of the same arrays for other channels
+    # gives what a first one would
+    require(np.array_equal(cols, np.array(case['cols'], dtype=case['cdt']).reshape((ns, nloc))),
+            'from_sparse modified the column table it was given', key='input-mutated',
+            observed=cols)
+    if req:
+        req2 = list(reversed(req))[:max(1, len(req) // 2)] + [max(req) + 5]
+        out2 = must_return('from_sparse (same arrays, other request)', from_sparse, data, cols,
+                           req2)
+        exp2 = np.zeros((ns, len(req2)) + tuple(extra), dtype=data.dtype)
+        for s_ in range(ns):
+            for j, c in enumerate(req2):
+                for k in range(nloc):
+                    if case['cols'][s_][k] == c:
+                        exp2[s_, j] = data[s_, k]
+        same_array('from_sparse (same arrays, other request)', out2, exp2, key='from_sparse')
     if case['dup'] and req:
         must_raise('from_sparse(duplicate request)', NotImplementedError, from_sparse, data, cols,
                    list(req) + [req[0]])
